@@ -43,6 +43,15 @@ Example C09_fail_fast_leaves_unsettled_refuted :
   result n = Some (Ko 1%Z) /\ map nphase (nkids n) = [PDone (Ko 1%Z); PRun].
 Proof. vm_compute. split; reflexivity. Qed.
 
+(** The same for executions that RETURN: a failure caught by [catch] lets the root resolve with the recovery while a
+    sibling of the failed call is still running; run returns and that call is never settled (registered known finding). *)
+Example C09_early_return_leaves_unsettled_refuted :
+  let s := SCatch (SList 0 [SRaise 1; SLeaf 2]) in
+  let n := run s [OStart []; OFinish []; OStart [0]; OFinish [0]; OStart [0;1]; OStart [0;0]; OFinish [0;0]] in
+  result n = Some (Ok (VRec 1%Z)) /\
+  map (fun k => map nphase (nkids k)) (nkids n) = [[PDone (Ko 1%Z); PRun]].
+Proof. vm_compute. split; reflexivity. Qed.
+
 Print Assumptions C09_tree_steps_bounded.
 Print Assumptions C09_tree_step_decreases.
 Print Assumptions C09_tree_quiescent_settled.
